@@ -1,5 +1,6 @@
 import FrappyProofs.Lemmas.Poller
 import FrappyProofs.Lemmas.PollerSlow
+import FrappyProofs.Lemmas.PollerGap
 import FrappyModel.Generated.C13
 /-
 C13 — property theorems (nothing but property theorems, the kept full statement of the unfinished one, and
@@ -85,6 +86,25 @@ theorem nopoll_never_read (c : Consts) (env : Env) (n : Nat) (σ : PollState) (h
     have : mm < (statics σ).length := hv
     simpa [traceOf, statics] using this
 
+/-- **poll_flags_mark.**  The flag the poll thread tests (`rfunc.poll`, as computed by the read wrapper of
+`HasAccessibles`, `Handler.__set_name__`, `CommonReadHandler.wrap` and `nopoll` — model `PollFlags.pollFlag`) is
+set exactly for the parameters that are not marked as not polled, for every way a class can declare a read function;
+hence the list of parameters the thread collects is the list the monitor allows (`Spec.C13.mayPoll`), and with
+`nopoll_never_read`: a parameter marked as not polled is never read by the poller. -/
+theorem poll_flags_mark (d : PollFlags.Decl) : PollFlags.pollFlag d = true ↔ ¬ MarkedNotPolled d := by
+  rcases d with ⟨k, i, o⟩
+  cases k <;> cases i <;> cases o <;> decide
+
+theorem polled_is_mayPoll (ds : List PollFlags.Decl) : ∀ i, PollFlags.polledIdx i ds = mayPoll i ds := by
+  induction ds with
+  | nil => intro i; rfl
+  | cons d ds ih =>
+    intro i
+    simp only [PollFlags.polledIdx, mayPoll, ih]
+    by_cases h : MarkedNotPolled d
+    · rw [if_pos h, if_neg (by rw [poll_flags_mark]; exact fun hn => hn h)]
+    · rw [if_neg h, if_pos ((poll_flags_mark d).2 h)]
+
 /-! ## interval changes -/
 
 /-- **interval_change_next_wakeup (1).**  `setFastPoll` on a polled module installs the new interval and sets the
@@ -110,11 +130,12 @@ theorem interval_change_triggers (σ : PollState) (i : Nat) (m : Mod) (hm : σ.m
 time passing; and a wait that is in progress when another thread changes an interval ends at that very moment,
 with the change applied. -/
 theorem interval_change_wakes (env : Env) (σ : PollState) (timeout : Nat) :
-    (σ.trig = true → (doWait env σ timeout).clock = σ.clock) ∧
+    (σ.trig = true → (doWait env σ timeout).clock = σ.clock ∧
+      (doWait env σ timeout).mods = (applyExts (env.gap σ.nWait) σ).mods) ∧
     (∀ d e rest, σ.trig = false → env.wake σ.nWait = (d, [e]) :: rest → d ≤ timeout →
       extTriggers σ.mods e = true →
       (waitEvent env σ timeout).clock = σ.clock + d ∧ (waitEvent env σ timeout).mods = applyExtMods σ.mods e) :=
-  ⟨fun h => (doWait_trig env σ timeout h).1,
+  ⟨fun h => doWait_trig env σ timeout h,
    fun d e rest ht hw hd he => waitEvent_interrupted env σ timeout d e rest ht hw hd he⟩
 
 /-- **interval_change_next_wakeup (3).**  Every wait of the loop is computed from the intervals in force at that
@@ -137,6 +158,109 @@ theorem interval_change_next_wakeup (c : Consts) (env : Env) (σ : PollState) (i
   refine ⟨rfl, ?_, ?_⟩
   · dsimp only; omega
   · dsimp only; omega
+
+/-- **interval_change_next_wakeup (4): no lost wake-up.**  Whenever another thread acts on the poll bookkeeping
+around a wait of the loop — before the wait is entered (first batch at distance 0), while it lasts (a batch at distance
+`d`), or in the window between the return of `wait` and the `clear` that follows it (`env.gap`) — the state the turn
+ends in contains that action: nothing the `clear` wipes out is still needed.  Precisely, for every environment, state
+and time-out: the poll bookkeeping after `wait; clear` is what the actions of the window make of what the wait left, the
+clock is the one the wait ended with (so the window costs no time), the event is clear, and the *next* turn — which,
+by (3), computes its wake-up from the values of the state it starts in — therefore ends no later than
+`last_main + interval` of the bookkeeping *including* the window's actions.  (Had the `clear` come before the `wait`,
+an action between the computation of `wait_time` and the `clear` would be slept over for the old interval.) -/
+theorem interval_change_not_lost (c : Consts) (env : Env) (σ : PollState) (timeout : Nat) :
+    (doWait env σ timeout).mods = (applyExts (env.gap σ.nWait) (waitEvent env σ timeout)).mods ∧
+    (doWait env σ timeout).clock = (waitEvent env σ timeout).clock ∧
+    (doWait env σ timeout).trig = false ∧
+    ∀ (i : Nat) (m : Mod), (doWait env σ timeout).mods[i]? = some m → m.enabled = true →
+      (readClock env (doWait env σ timeout)).clock < wakeAt c (readClock env (doWait env σ timeout)).clock (doWait env σ timeout).mods ∧
+        (doWait env σ timeout).toPoll.isNone = true →
+      (turn c env (doWait env σ timeout)).σ.clock ≤ m.lastMain + m.interval := by
+  refine ⟨doWait_mods env σ timeout, doWait_clock env σ timeout, rfl, ?_⟩
+  intro i m hm he hw
+  exact (interval_change_next_wakeup c env (doWait env σ timeout) i m hm he hw).2.1
+
+/-- a `setFastPoll` / `pollinterval` change falling into the window between `wait` and `clear` is installed when the
+turn ends (with (4): the next wake-up is computed from it) -/
+theorem interval_change_in_window (env : Env) (σ : PollState) (timeout : Nat) (i : Nat) (m : Mod)
+    (hm : (waitEvent env σ timeout).mods[i]? = some m) (flag : Bool) (fastI : Nat)
+    (hg : env.gap σ.nWait = [.setFastPoll i flag fastI]) :
+    (doWait env σ timeout).mods[i]? =
+      some { m with fast := flag, interval := if flag then fastI else m.pollinterval } := by
+  rw [doWait_mods, hg, applyExts_single]
+  simp [applyExt, applyExtMods, updAt_getElem?, hm, extSetFastPoll]
+
+/-! ## the interval the poller uses is the one the module was told -/
+
+/-- the model's `PollInfo` of module `m` agrees with what the module was told (`s`): same poll interval, same
+fast-polling switch, and `PollInfo.interval` is the interval in force -/
+def Tracks (m : Mod) (s : IvState) : Prop :=
+  m.pollinterval = s.pollinterval ∧ m.fast = s.fast ∧ m.interval = s.inForce
+
+/-- the command module `i` receives through an action of another thread at time `t` (triggers are no commands) -/
+def cmdOf (i t : Nat) : Ext → Option Cmd
+  | .updateInterval m v => if m = i then some (.setInterval t v) else none
+  | .setFastPoll m flag v => if m = i then some (.setFast t flag v) else none
+  | _ => none
+
+def stepOpt (s : IvState) : Option Cmd → IvState
+  | some c => cmdStep s c
+  | none => s
+
+/-- **interval_follows_commands.**  For every sequence of actions of other threads on the poll bookkeeping —
+`pollinterval` changes with or without fast polling being on, fast polling switched on or off, triggers, reconnect —
+in whatever order and at whatever times: the interval the poll loop computes with (`PollInfo.interval`) stays the
+interval the module was *told* (`Spec.C13.IvState.inForce`: the fast interval while fast polling is on, the module's
+current `pollinterval` otherwise), i.e. the one the monitor's `MainGapBound` holds the implementation to.  In
+particular a `pollinterval` change made while fast polling is on is in force as soon as fast polling is switched off. -/
+theorem interval_follows_commands (i : Nat) (es : List (Nat × Ext)) : ∀ (mods : List Mod) (m : Mod) (s : IvState),
+    mods[i]? = some m → Tracks m s →
+    ∃ m', (es.foldl (fun ms te => applyExtMods ms te.2) mods)[i]? = some m' ∧
+      Tracks m' (es.foldl (fun s te => stepOpt s (cmdOf i te.1 te.2)) s) ∧ m'.enabled = m.enabled := by
+  induction es with
+  | nil => intro mods m s hm hc; exact ⟨m, hm, hc, rfl⟩
+  | cons te es ih =>
+    intro mods m s hm hc
+    obtain ⟨t, e⟩ := te
+    have step : ∃ m1, (applyExtMods mods e)[i]? = some m1 ∧ Tracks m1 (stepOpt s (cmdOf i t e)) ∧
+        m1.enabled = m.enabled := by
+      obtain ⟨hp, hf, hi⟩ := hc
+      unfold IvState.inForce at hi
+      cases e with
+      | updateInterval j v =>
+        by_cases hj : j = i
+        · subst hj
+          refine ⟨extUpdateInterval v m, by simp [applyExtMods, updAt_getElem?, hm], ?_, ?_⟩
+          · unfold Tracks IvState.inForce extUpdateInterval
+            cases hfm : m.fast <;> simp [hfm, cmdOf, stepOpt, cmdStep, ← hf] at hi ⊢
+            exact hi
+          · unfold extUpdateInterval; split <;> rfl
+        · exact ⟨m, by simp [applyExtMods, updAt_getElem?, hm, Ne.symm hj], by simpa [cmdOf, hj, stepOpt] using ⟨hp, hf, hi⟩, rfl⟩
+      | setFastPoll j flag v =>
+        by_cases hj : j = i
+        · subst hj
+          refine ⟨extSetFastPoll flag v m, by simp [applyExtMods, updAt_getElem?, hm], ?_, rfl⟩
+          unfold Tracks IvState.inForce extSetFastPoll
+          cases flag <;> simp [cmdOf, stepOpt, cmdStep, hp]
+        · exact ⟨m, by simp [applyExtMods, updAt_getElem?, hm, Ne.symm hj], by simpa [cmdOf, hj, stepOpt] using ⟨hp, hf, hi⟩, rfl⟩
+      | trigger j imm =>
+        by_cases hj : j = i
+        · subst hj
+          refine ⟨extTrigger imm m, by simp [applyExtMods, updAt_getElem?, hm], ?_, ?_⟩
+          · unfold extTrigger; split <;> exact ⟨hp, hf, hi⟩
+          · unfold extTrigger; split <;> rfl
+        · exact ⟨m, by simp [applyExtMods, updAt_getElem?, hm, Ne.symm hj], ⟨hp, hf, hi⟩, rfl⟩
+      | triggerAll =>
+        refine ⟨extTriggerAll m, by simp [applyExtMods, hm], ?_, ?_⟩
+        · unfold extTriggerAll; split <;> exact ⟨hp, hf, hi⟩
+        · unfold extTriggerAll; split <;> rfl
+    obtain ⟨m1, h1, c1, e1⟩ := step
+    obtain ⟨m', h', c', e'⟩ := ih (applyExtMods mods e) m1 _ h1 c1
+    exact ⟨m', h', c', by rw [e', e1]⟩
+
+/-- the entries the monitor derives from the commands (`ModInfo.intervals`) are the intervals in force after each command -/
+theorem intervals_are_in_force (s : IvState) (c : Cmd) (cs : List Cmd) :
+    intervalsFrom s (c :: cs) = (c.time, (cmdStep s c).inForce) :: intervalsFrom (cmdStep s c) cs := rfl
 
 /-! ## bounded staleness of the main polls -/
 
@@ -164,6 +288,152 @@ theorem main_gap_bound (c : Consts) (env : Env) (hq : Quiet env) (D E : Nat) (hb
     · rw [ps]; intro ab hab; simp [pairs] at hab
     · rw [ps]; intro a ha; simp at ha
   exact ⟨h1, gapsLe_mono _ _ _ (gapBound_le _ D E _ (by omega)) h1⟩
+
+/-- **main_gap_bound, as the specification states it.**  The clause the monitor evaluates on implementation traces —
+`MainGapBoundS`: for every polled module, between consecutive `doPoll` starts after the start-up round, from the end
+of the start-up round to the first start, and from the last start to the end of the observation, no more than the
+interval in force plus one sweep — holds for the trace of the model's thread body (start-up round and any number of
+turns, observed until the clock of the last turn), with one sweep `= sweepBound n D E`, for every quiet environment
+with durations `≤ D` and clock steps `≤ E`, every number of modules and any intervals.  The thread starts with every
+polled module due (`last_main = 0` in `PollInfo.__init__`: hypothesis `hstart`). -/
+theorem main_gap_bound_spec (c : Consts) (env : Env) (hq : Quiet env) (D E : Nat) (hb : Bounded env D E)
+    (σ : PollState)
+    (hstart : ∀ (i : Nat) (m : Mod), σ.mods[i]? = some m → m.enabled = true →
+      m.lastMain ≤ m.lastStart ∧ m.lastMain + m.interval < σ.clock) (k : Nat) :
+    MainGapBoundS (sweepBound σ.mods.length D E)
+      (traceOf σ (thread c env k σ).evs (prologue c env σ).σ.clock (thread c env k σ).σ.clock E) := by
+  intro i hi mi hmi
+  simp only [traceOf, List.getElem?_map, Option.map_eq_some_iff] at hmi
+  obtain ⟨m, hm, rfl⟩ := hmi
+  have he : m.enabled = true := by
+    simp only [traceOf, enabledIdx, List.mem_filter, List.getElem?_map, hm, Option.map_some, infoOf] at hi
+    exact hi.2
+  have hilt : i < σ.mods.length := by
+    rcases List.getElem?_eq_some_iff.1 hm with ⟨h, _⟩; exact h
+  obtain ⟨hle, hdue⟩ := hstart i m hm he
+  obtain ⟨pm, ps⟩ := prologue_quiet c env hq i σ
+  have hclk : σ.clock ≤ (prologue c env σ).σ.clock := (prologue_step c env hq 0 0 σ).clk
+  have hinv : GapInv σ.mods.length i D E m.interval (prologue c env σ).σ m :=
+    ⟨by rw [pm], by rw [pm]; exact hm, he, rfl, hle⟩
+  have hmx : Nat.max (m.lastMain + m.interval) (prologue c env σ).σ.clock = (prologue c env σ).σ.clock :=
+    Nat.max_eq_right (by omega)
+  have hr0 : RunInv σ.mods.length i D E m.interval (prologue c env σ).σ.clock m.lastMain (prologue c env σ).σ m
+      (startsOf (prologue c env σ).evs i) := by
+    rw [ps]
+    exact ⟨fun ab hab => by simp [pairs] at hab, fun a ha => by simp at ha, fun t ht => by simp at ht,
+      fun a ha => by simp at ha, fun _ => ⟨rfl, by omega⟩, Nat.le_refl _⟩
+  obtain ⟨m', _, hR⟩ := run_full c env hq D E hb σ.mods.length i m.interval (prologue c env σ).σ.clock m.lastMain hilt k
+    (prologue c env σ).σ m (prologue c env σ).evs hinv hr0
+  have hth : thread c env k σ = run c env k (prologue c env σ).σ (prologue c env σ).evs := rfl
+  rw [← hth] at hR
+  have hS : gapBound σ.mods.length D E m.interval ≤ m.interval + sweepBound σ.mods.length D E :=
+    gapBound_le _ D E _ (by omega)
+  have hfilter : (startsOf (thread c env k σ).evs i).filter (fun t => decide ((prologue c env σ).σ.clock ≤ t)) =
+      startsOf (thread c env k σ).evs i :=
+    List.filter_eq_self.2 (fun t ht => decide_eq_true (Nat.le_of_lt (hR.lo t ht)))
+  have hgl : GapsLe (startsOf (thread c env k σ).evs i ++ [(thread c env k σ).σ.clock])
+      (gapBound σ.mods.length D E m.interval) := by
+    apply gapsLe_append_single _ _ _ hR.gaps
+    intro a ha
+    obtain ⟨h1, h2⟩ := hR.link a ha
+    unfold ClockInv restAfter at h2
+    unfold gapBound
+    have hmaxI : m.interval ≤ Nat.max m.interval D := Nat.le_max_left _ _
+    have h5 : (σ.mods.length - 1 - i) * (D + E) ≤ (σ.mods.length - 1) * (D + E) :=
+      Nat.mul_le_mul_right _ (by omega)
+    omega
+  show (∀ ab ∈ pairs ((startsOf (thread c env k σ).evs i).filter
+        (fun t => decide ((prologue c env σ).σ.clock ≤ t)) ++ [(thread c env k σ).σ.clock]),
+      ab.2 ≤ mainLimit (sweepBound σ.mods.length D E) (infoOf m) ab.1 ab.2) ∧
+    ((startsOf (thread c env k σ).evs i).filter (fun t => decide ((prologue c env σ).σ.clock ≤ t)) ++
+      [(thread c env k σ).σ.clock]).head! ≤ (prologue c env σ).σ.clock + sweepBound σ.mods.length D E
+  rw [hfilter]
+  constructor
+  · intro ab hab
+    have hg := hgl ab hab
+    by_cases hb0 : ab.2 = 0
+    · rw [hb0]; exact Nat.zero_le _
+    · have hpos : 0 < ab.2 := Nat.pos_of_ne_zero hb0
+      have hmax : ab.1 + m.interval ≤ Nat.max (ab.1 + m.interval) 0 := Nat.le_max_left _ _
+      simp only [mainLimit, infoOf, ModInfo.intervals, intervalsFrom, inForce, List.foldl_cons, List.foldl_nil, hpos, if_true]
+      omega
+  · cases hs : startsOf (thread c env k σ).evs i with
+    | nil =>
+      have := (hR.fresh hs).2
+      rw [hmx] at this
+      unfold restAfter at this
+      have h6 : (σ.mods.length - 1 - i) * (D + E) ≤ σ.mods.length * (D + E) := Nat.mul_le_mul_right _ (by omega)
+      show (thread c env k σ).σ.clock ≤ _
+      unfold sweepBound
+      omega
+    | cons x xs =>
+      have := hR.head x (by rw [hs]; rfl)
+      unfold firstBound at this
+      rw [hmx] at this
+      have h6 : σ.mods.length * (D + E) = (σ.mods.length - 1) * (D + E) + (D + E) := by
+        have : σ.mods.length = (σ.mods.length - 1) + 1 := by omega
+        conv => lhs; rw [this, Nat.add_mul, Nat.one_mul]
+      show x ≤ _
+      unfold sweepBound
+      omega
+
+/-- **interval_change_next_wakeup (5): at run level.**  Let other threads do *anything* to the poll bookkeeping
+(`es`: interval changes, fast polling on/off, triggers, reconnects, in any number and order) in any state `σ0` of the
+loop between two turns — `σ` is the state after that, `m` what module `i` looks like then (its interval is the one in
+force after these commands, `interval_follows_commands`).  From there on, in every quiet bounded environment and for
+any number of turns: the first `doPoll i` starts no later than
+
+    max (last_main + new interval) (moment of the change)  +  one sweep
+
+(the monitor's `mainLimit`: `last_main ≤` the previous start), every later pair of consecutive starts is at most
+`new interval + one sweep` apart, and as long as there is no start the clock is within the same limit.  No assumption
+about `σ0` (the iterator may be alive, the event set, other modules due), except that `last_main` of the module is not
+later than its latest start — which every action and every turn preserves. -/
+theorem interval_change_takes_effect (c : Consts) (env : Env) (hq : Quiet env) (D E : Nat) (hb : Bounded env D E)
+    (σ0 : PollState) (es : List Ext) (i : Nat) (m0 : Mod) (hm0 : σ0.mods[i]? = some m0) (he0 : m0.enabled = true)
+    (hle0 : m0.lastMain ≤ m0.lastStart) (k : Nat) :
+    ∃ m, (applyExts es σ0).mods[i]? = some m ∧
+      GapsLe (startsOf (run c env k (applyExts es σ0) []).evs i) (m.interval + sweepBound σ0.mods.length D E) ∧
+      (∀ a, (startsOf (run c env k (applyExts es σ0) []).evs i).head? = some a →
+        a ≤ max (m.lastMain + m.interval) σ0.clock + sweepBound σ0.mods.length D E) ∧
+      (startsOf (run c env k (applyExts es σ0) []).evs i = [] →
+        (run c env k (applyExts es σ0) []).σ.clock ≤ max (m.lastMain + m.interval) σ0.clock + sweepBound σ0.mods.length D E) := by
+  obtain ⟨m, hm, hen, hl⟩ := applyExts_keeps es σ0 i m0 hm0
+  have he : m.enabled = true := by rw [hen]; exact he0
+  have hle := hl hle0
+  have hclk : (applyExts es σ0).clock = σ0.clock := applyExts_clock es σ0
+  have hlen : (applyExts es σ0).mods.length = σ0.mods.length := by
+    have := congrArg List.length (applyExts_statics es σ0)
+    simpa [statics] using this
+  have hilt : i < σ0.mods.length := by
+    rcases List.getElem?_eq_some_iff.1 hm0 with ⟨h, _⟩; exact h
+  have hinv : GapInv σ0.mods.length i D E m.interval (applyExts es σ0) m := ⟨hlen, hm, he, rfl, hle⟩
+  have hr0 : RunInv σ0.mods.length i D E m.interval σ0.clock m.lastMain (applyExts es σ0) m
+      (startsOf ([] : List Event) i) :=
+    ⟨fun ab hab => by simp [startsOf, pairs] at hab, fun a ha => by simp [startsOf] at ha,
+     fun t ht => by simp [startsOf] at ht, fun a ha => by simp [startsOf] at ha,
+     fun _ => ⟨rfl, by rw [hclk]; exact Nat.le_trans (Nat.le_max_right _ _) (Nat.le_add_right _ _)⟩,
+     by rw [hclk]; exact Nat.le_refl _⟩
+  obtain ⟨m', _, hR⟩ := run_full c env hq D E hb σ0.mods.length i m.interval σ0.clock m.lastMain hilt k
+    (applyExts es σ0) m [] hinv hr0
+  have h6 : σ0.mods.length * (D + E) = (σ0.mods.length - 1) * (D + E) + (D + E) := by
+    have : σ0.mods.length = (σ0.mods.length - 1) + 1 := by omega
+    conv => lhs; rw [this, Nat.add_mul, Nat.one_mul]
+  have hmaxeq : Nat.max (m.lastMain + m.interval) σ0.clock = max (m.lastMain + m.interval) σ0.clock := rfl
+  refine ⟨m, hm, gapsLe_mono _ _ _ (gapBound_le _ D E _ (by omega)) hR.gaps, ?_, ?_⟩
+  · intro a ha
+    have := hR.head a ha
+    unfold firstBound at this
+    rw [hmaxeq] at this
+    unfold sweepBound
+    omega
+  · intro hs
+    have := (hR.fresh hs).2
+    unfold restAfter at this
+    rw [hmaxeq] at this
+    have h7 : (σ0.mods.length - 1 - i) * (D + E) ≤ (σ0.mods.length - 1) * (D + E) := Nat.mul_le_mul_right _ (by omega)
+    unfold sweepBound
+    omega
 
 /-! ## refresh of the other parameters -/
 
@@ -231,6 +501,38 @@ theorem slow_refresh_bound_thread (c : Consts) (env : Env) (hq : Quiet env) (D E
   unfold thread
   rw [run_σ_indep]
   exact h
+
+/-- **the bounds, from the state a thread really starts in.**  For a thread whose modules carry fresh `PollInfo`s
+(`startMod`: `interval = pollinterval`, `last_main = last_slow = 0`, as `PollInfo.__init__` leaves them) started at a
+clock later than every poll interval (the clock is the time since 1970) with slow intervals `> 0` (the datatype's
+lower limit), in every quiet bounded environment and for any number of turns: the specification's main-poll clause
+holds with one sweep `= sweepBound n D E`, and every polled parameter is refreshed within `slowBound` — no further
+hypothesis about the state. -/
+theorem bounds_from_thread_start (c : Consts) (env : Env) (hq : Quiet env) (D E : Nat) (hb : Bounded env D E)
+    (clock : Nat) (decl : List (Bool × Nat × List Nat × Nat)) (stamp : Nat → Nat → Nat)
+    (hiv : ∀ d ∈ decl, d.2.2.2 < clock) (hslow : ∀ d ∈ decl, 0 < d.2.1) (k : Nat) :
+    let σ := startState clock (decl.map fun d => startMod d.1 d.2.1 d.2.2.1 d.2.2.2) stamp
+    MainGapBoundS (sweepBound σ.mods.length D E)
+      (traceOf σ (thread c env k σ).evs (prologue c env σ).σ.clock (thread c env k σ).σ.clock E) ∧
+    ∀ (i p : Nat) (m : Mod), σ.mods[i]? = some m → m.enabled = true → p ∈ m.polled →
+      (thread c env k σ).σ.clock ≤
+        max ((thread c env k σ).σ.refreshed i p) (prologue c env σ).σ.clock +
+          slowBound m.slow (allEntries 0 σ.mods).length σ.mods.length D E := by
+  intro σ
+  have hget : ∀ (i : Nat) (m : Mod), σ.mods[i]? = some m →
+      ∃ d ∈ decl, m = startMod d.1 d.2.1 d.2.2.1 d.2.2.2 := by
+    intro i m hm
+    simp only [σ, startState, List.getElem?_map, Option.map_eq_some_iff] at hm
+    obtain ⟨d, hd, rfl⟩ := hm
+    exact ⟨d, List.mem_of_getElem? hd, rfl⟩
+  constructor
+  · apply main_gap_bound_spec c env hq D E hb σ
+    intro i m hm _
+    obtain ⟨d, hd, rfl⟩ := hget i m hm
+    exact ⟨Nat.le_refl _, by simpa [startMod, σ, startState] using hiv d hd⟩
+  · intro i p m hm he hp
+    obtain ⟨d, hd, rfl⟩ := hget i m hm
+    exact slow_refresh_bound_thread c env hq D E hb σ i p _ hm he hp (hslow d hd) (Nat.zero_le _) (Nat.le_refl _) rfl k
 
 /-- **the ghost means what it says.**  `refreshed i p` changes in two places only, and each time to the moment of a
 genuine refresh: at the start of a call it becomes the clock iff the call is `read_p` of module `i`; a time stamp
@@ -320,6 +622,58 @@ example : GapsLe (startsOf (thread exConsts exEnv 30 exState).evs 0) 23 ∧
   ⟨(main_gap_bound exConsts exEnv exEnv_quiet 3 1 exEnv_bounded exState 0 (exMod 10 40 [0, 1]) rfl rfl
       (Nat.le_refl _) 30).1, by decide⟩
 
+/-- `main_gap_bound_spec` on it: the specification's clause, the one the monitor runs, holds with one sweep = 16 ticks
+for 30 turns of the example thread — and the monitor agrees; with a sweep of 0 ticks it does not (the bound is not vacuous) -/
+example : MainGapBoundS (sweepBound 3 3 1)
+    (traceOf exState (thread exConsts exEnv 30 exState).evs (prologue exConsts exEnv exState).σ.clock
+      (thread exConsts exEnv 30 exState).σ.clock 1) :=
+  main_gap_bound_spec exConsts exEnv exEnv_quiet 3 1 exEnv_bounded exState
+    (by intro i m hm he
+        match i, hm with
+        | 0, hm => cases hm; decide
+        | 1, hm => cases hm; decide
+        | 2, hm => cases hm; simp at he
+        | n + 3, hm => simp [exState] at hm) 30
+
+example : ¬ MainGapBoundS 0
+    (traceOf exState (thread exConsts exEnv 30 exState).evs (prologue exConsts exEnv exState).σ.clock
+      (thread exConsts exEnv 30 exState).σ.clock 1) := by decide
+
+/-- `bounds_from_thread_start` on a thread of two polled modules and one that is only written, started at clock 1000 -/
+example :
+    let σ := startState 1000 ([(true, 40, [0, 1], 10), (true, 60, [2], 25), (false, 50, [], 7)].map
+      fun d => startMod d.1 d.2.1 d.2.2.1 d.2.2.2) (fun _ _ => 0)
+    MainGapBoundS (sweepBound σ.mods.length 3 1)
+      (traceOf σ (thread exConsts exEnv 30 σ).evs (prologue exConsts exEnv σ).σ.clock (thread exConsts exEnv 30 σ).σ.clock 1) :=
+  (bounds_from_thread_start exConsts exEnv exEnv_quiet 3 1 exEnv_bounded 1000 _ (fun _ _ => 0)
+    (by decide) (by decide) 30).1
+
+/-- `interval_change_takes_effect` on the example thread: after 7 turns another thread switches fast polling on for
+module 0 (interval 10 so far) with interval 2 and triggers module 1; from then on module 0 is started every
+`≤ 2 + 16` ticks -/
+example : ∃ m, (applyExts [.setFastPoll 0 true 2, .trigger 1 true] (thread exConsts exEnv 7 exState).σ).mods[0]? = some m ∧
+    m.interval = 2 ∧
+    GapsLe (startsOf (run exConsts exEnv 20 (applyExts [.setFastPoll 0 true 2, .trigger 1 true]
+      (thread exConsts exEnv 7 exState).σ) []).evs 0) (2 + 16) := by
+  obtain ⟨m, hm, hg, _, _⟩ := interval_change_takes_effect exConsts exEnv exEnv_quiet 3 1 exEnv_bounded
+    (thread exConsts exEnv 7 exState).σ [.setFastPoll 0 true 2, .trigger 1 true] 0
+    ((thread exConsts exEnv 7 exState).σ.mods[0]?.getD default) (by decide +kernel) (by decide +kernel) (by decide +kernel) 20
+  refine ⟨m, hm, ?_, ?_⟩
+  · have h2 : ((applyExts [.setFastPoll 0 true 2, .trigger 1 true] (thread exConsts exEnv 7 exState).σ).mods[0]?.map (·.interval)) = some 2 := by
+      decide +kernel
+    rw [hm] at h2; simpa using h2
+  · have h2 : ((applyExts [.setFastPoll 0 true 2, .trigger 1 true] (thread exConsts exEnv 7 exState).σ).mods[0]?.map (·.interval)) = some 2 := by
+      decide +kernel
+    rw [hm] at h2
+    have h3 : m.interval = 2 := by simpa using h2
+    have h4 : (thread exConsts exEnv 7 exState).σ.mods.length = 3 := by decide +kernel
+    rw [h3, h4] at hg
+    exact hg
+
+/-- and the starts after the change really are that dense (several of them, 3 ticks apart — each `doPoll` lasts 3) -/
+example : (startsOf (run exConsts exEnv 20 (applyExts [.setFastPoll 0 true 2, .trigger 1 true]
+      (thread exConsts exEnv 7 exState).σ) []).evs 0).length ≥ 5 := by decide +kernel
+
 /-- `due_polled_this_turn` / `not_due_not_polled` on the first turn after start-up: module 1 is due and polled -/
 example : ∃ t, startsOf (turn exConsts exEnv (prologue exConsts exEnv exState).σ).evs 1 = [t] :=
   due_polled_this_turn exConsts exEnv exEnv_quiet 3 1 exEnv_bounded _ 1 (exMod 25 60 [2]) (by decide) rfl (by decide)
@@ -345,6 +699,41 @@ example : (run exConsts exEnv 40 exState []).σ.clock ≤
 
 example : slowBound (exMod 25 60 [2]).slow (allEntries 0 exState.mods).length exState.mods.length 3 1 = 220 ∧
     1000 < (run exConsts exEnv 40 exState []).σ.refreshed 1 2 := by decide +kernel
+
+/-- an environment in which another thread switches fast polling (interval 2) on for module 0 in the window between
+the return of the first wait of the loop and the `clear` that follows it -/
+def exEnvGap : Env := { exEnv with gap := fun k => if k = 0 then [.setFastPoll 0 true 2] else [] }
+
+/-- `interval_change_not_lost` / `interval_change_in_window` on it: the wait (time-out 5, nothing else happens) ends
+at 1005, the action of the window is installed although its trigger is wiped out, the clock has not moved, and the
+next turn — module 0 was last polled at 1000 — is over by `1000 + 2`, not by `1000 + 10` -/
+example : ((doWait exEnvGap { exState with mods := exState.mods.map (fun m => { m with lastMain := 1000, lastSlow := 1000 }) } 5).mods[0]?.map (·.interval)) = some 2 ∧
+    (doWait exEnvGap exState 5).clock = 1005 ∧ (doWait exEnvGap exState 5).trig = false := by decide
+
+example : (doWait exEnvGap exState 5).mods[0]? = some { exMod 10 40 [0, 1] with fast := true, interval := 2 } :=
+  interval_change_in_window exEnvGap exState 5 0 (exMod 10 40 [0, 1]) rfl true 2 rfl
+
+example : (doWait exEnvGap exState 5).mods = (applyExts (exEnvGap.gap 0) (waitEvent exEnvGap exState 5)).mods :=
+  (interval_change_not_lost exConsts exEnvGap exState 5).1
+
+/-- `interval_follows_commands` on the sequence "fast polling on (interval 2) at 5, `pollinterval := 7` at 6 (while
+fast), reconnect at 7, fast polling off at 8": the loop's interval ends up as 7 — the value set *during* fast
+polling — and the intervals the monitor derives from the same commands are 2, 2, 7 -/
+example : ∃ m', ([(5, Ext.setFastPoll 0 true 2), (6, .updateInterval 0 7), (7, .triggerAll), (8, .setFastPoll 0 false 3)].foldl
+      (fun ms te => applyExtMods ms te.2) exState.mods)[0]? = some m' ∧
+    Tracks m' ⟨7, false, 3⟩ ∧ m'.enabled = true :=
+  interval_follows_commands 0 _ exState.mods (exMod 10 40 [0, 1]) ⟨10, false, 0⟩ rfl ⟨rfl, rfl, rfl⟩
+
+example : (ModInfo.intervals ⟨true, 40, [0, 1], 10, [.setFast 5 true 2, .setInterval 6 7, .setFast 8 false 3]⟩) =
+    [(0, 10), (5, 2), (6, 2), (8, 7)] := by decide
+
+/-- `poll_flags_mark` / `polled_is_mayPoll` on a class with a plain read function, a `@nopoll` one, a parameter
+without read function, a read handler with two keys, a common handler with two keys, and a `nopoll`ed common handler:
+positions 0, 3, 4, 5 are polled -/
+example : PollFlags.polledIdx 0 [⟨.plain, false, false⟩, ⟨.plain, true, false⟩, ⟨.none, false, false⟩,
+      ⟨.handler, false, false⟩, ⟨.handler, false, false⟩, ⟨.commonFirst, false, false⟩, ⟨.commonRest, false, false⟩,
+      ⟨.commonFirst, false, true⟩, ⟨.commonRest, false, true⟩] = [0, 3, 4, 5] ∧
+    MarkedNotPolled ⟨.commonFirst, false, true⟩ ∧ ¬ MarkedNotPolled ⟨.handler, false, false⟩ := by decide
 
 /-- the generated limits exclude `slowinterval = 0` (hypothesis of the refresh bound) -/
 example : 0 < Generated.C13.slowMin := by decide
